@@ -51,8 +51,8 @@ ASSUMPTIONS = [
     "SingletonThreadPool: garbage is collected before Pool.dispose() (its dispose() clears _all_conns but not the thread-local record weakref, so a record kept alive by "
     "uncollected garbage of a failed checkout would be re-used untracked - GC-timing dependent, kept out to stay deterministic)",
     "known findings excluded by construction and pinned: (1) a fault in the first-connect initialisation / connect listener drops the new connection without close(), "
-    "(2) a reset-on-return failure while closing a detached connection skips its close(), "
-    "(3) invalidate() of a detached connection (explicit or through disconnect handling) never closes it",
+    "(2) a reset-on-return failure while closing a detached connection skips its close() "
+    "(a third one, invalidate() of a detached connection never closing it, is repaired in /repo and generated again)",
     "a holder whose close() raised is dropped and garbage collected (the documented fallback path)",
     "vf.fakedb's ledger, the virtual clock (sqlalchemy.pool.base.time patched) and the ban rules in checks/_faults.py are trusted",
     "pool_timeout=0 so an exhausted QueuePool raises TimeoutError immediately instead of blocking",
@@ -200,6 +200,8 @@ class _Run:
         never close them): unless pinned, keep the triggering faults away from them"""
         if h.state != "detached" or self.case.get("pinned"):
             return
+        if only_disconnect:
+            return  # finding 3 (invalidation of a detached connection never closed it) is repaired in /repo: generated again
         dropped = 0
         for site in sites:
             if site == "ev_reset":
@@ -372,9 +374,6 @@ class _Run:
 
     def do_invalidate(self, h, soft):
         was_detached = h.state == "detached"
-        if was_detached and not soft and not self.case.get("pinned"):
-            self.excluded.append("invalidate() of a DETACHED connection (known finding: never closed)")
-            return
         self.begin_op()
         cid = self.cur_cid(h)
         try:
